@@ -12,6 +12,8 @@ computeds k < j), followed by top-level operations
     ["win", acts]                install a throw-away Computed whose function performs `acts`
                                  (["r", owner, name] | ["rk", j] | ["w", owner, name, v]) in order - the
                                  "function that writes to an observable" of the cycle clause
+    ["win2", acts]               the same; when the installation is rejected the Computed stays installed and is
+                                 read once more (observed: raises again / returns None / returns a value)
 Model: coq/Model/Computed.v.  Observation after every op: tag, value read / rejection status,
 evaluation counters of all computeds, values of all observables of live owners."""
 import gc
@@ -59,7 +61,7 @@ ASSUMPTIONS = [
 ]
 SHRINK = True
 
-T_SET, T_READ, T_KILL, T_WIN = 0, 1, 2, 3
+T_SET, T_READ, T_KILL, T_WIN, T_WIN2 = 0, 1, 2, 3, 4
 E_CYCLE = 1
 
 
@@ -132,7 +134,7 @@ def _rand_case(rng, nops):
                     acts.append(["rk", rng.randrange(ncomp)])
                 else:
                     acts.append(["w", o, n, rng.choice([0, 1, 2, 5])])
-            ops.append(["win", acts])
+            ops.append(["win2" if rng.random() < 0.4 else "win", acts])
     return {"init": init, "comps": comps, "ops": ops}
 
 
@@ -170,6 +172,13 @@ def _corner_cases():
                        ["win", [["r", 0, 0], ["w", 0, 1, 7], ["w", 0, 0, 6]]], ["read", 0],
                        ["win", [["w", 0, 0, 8], ["r", 0, 0]]], ["read", 0],
                        ["win", [["rk", 0], ["w", 0, 1, 9]]], ["read", 0]]})
+    # a rejected installation leaves the Computed installed: read it again (unchanged parents -> None; a parent
+    # Computable that the function itself made dirty -> the function runs again)
+    cs.append({"init": [[1, 2]], "comps": [{"owner": 0, "expr": ["o", 0, 1]}],
+               "ops": [["set", 0, 0, 1], ["win2", [["r", 0, 0], ["w", 0, 0, 5]]], ["read", 0],
+                       ["set", 0, 0, 1], ["win2", [["rk", 0], ["w", 0, 1, 7], ["r", 0, 0], ["w", 0, 0, 6]]], ["read", 0],
+                       ["set", 0, 0, 1], ["win2", [["r", 0, 0], ["w", 0, 1, 9], ["w", 0, 0, 6]]], ["read", 0],
+                       ["win2", [["w", 0, 1, 3]]], ["set", 0, 0, 2], ["win2", [["w", 0, 1, 3]]]]})
     # collected parent
     cs.append({"init": [[1], [7]], "comps": [{"owner": 0, "expr": ["+", ["o", 1, 0], ["o", 0, 0]]}],
                "ops": [["read", 0], ["kill", 1], ["read", 0], ["set", 0, 0, 1], ["read", 0], ["set", 0, 0, 2], ["read", 0]]})
@@ -221,6 +230,8 @@ def enumerate_cases(tier, broken=False):
         for seq in itertools.product(range(len(acts)), repeat=k):
             yield {"init": [[1, 2]], "comps": [{"owner": 0, "expr": ["o", 0, 0]}],
                    "ops": [["win", [list(acts[i]) for i in seq]], ["read", 0]]}
+            yield {"init": [[1, 2]], "comps": [{"owner": 0, "expr": ["o", 0, 1]}],
+                   "ops": [["set", 0, 0, 1], ["win2", [list(acts[i]) for i in seq]], ["read", 0]]}
 
 
 # ------------------------------------------------------------------ implementation side
@@ -465,6 +476,8 @@ def run_impl(case):
                 obs.append([T_KILL] + _state_obs(env))
             elif kind == "win":
                 obs.append(_win(env, op[1], ms, Computable, Computed, HasObservables))
+            elif kind == "win2":
+                obs.append(_win(env, op[1], ms, Computable, Computed, HasObservables, keep=True))
             else:
                 raise ValueError(kind)
         except Exception as e:  # noqa: BLE001
@@ -492,12 +505,16 @@ def _dead_upstream(env, j, seen=None):
     return out
 
 
-def _win(env, acts, ms, Computable, Computed, HasObservables):
-    """throw-away Computed whose function reads and writes observables"""
+def _win(env, acts, ms, Computable, Computed, HasObservables, keep=False):
+    """throw-away Computed whose function reads and writes observables; keep: when its installation is
+    rejected it stays installed - read it once more and observe what comes back"""
     read_here = []          # observables this function has read so far, with the number of writes done since
-    state = {"writes": 0, "must_reject": None}
+    state = {"writes": 0, "must_reject": None, "runs": 0}
 
     def func():
+        state["runs"] += 1
+        del read_here[:]
+        state["writes"] = 0
         for a in acts:
             if a[0] == "r":
                 o = env.owners.get(a[1])
@@ -518,7 +535,7 @@ def _win(env, acts, ms, Computable, Computed, HasObservables):
                 if o is None:
                     continue
                 prior = [w for (s, w) in read_here if s == (oi, n)]
-                if prior and state["must_reject"] is None:
+                if prior and state["must_reject"] is None and state["runs"] == 1:
                     state["must_reject"] = (oi, n, min(prior) < state["writes"], all(w < state["writes"] for w in prior))
                 old = env.shadow[(oi, n)]
                 env.shadow[(oi, n)] = v
@@ -547,9 +564,20 @@ def _win(env, acts, ms, Computable, Computed, HasObservables):
         _fail(env, f"C17/Observable.__set__/{sub}",
               f"a Computed whose function performs {acts} read x{n} of owner {oi} and later assigned it; the assignment was accepted "
               f"instead of raising the cyclical-dependency ValueError")
+    status2 = 0
+    if keep and status == E_CYCLE:
+        # the statement promises the rejection; what a later read of the still installed Computed does is
+        # observed and compared with the model (report: finding candidate), not judged here
+        try:
+            r = tmp.t
+            status2 = 2 if r is None else 3
+        except ValueError as e:
+            if "cyclical dependency" not in str(e):
+                raise
+            status2 = 1
     del tmp
     gc.collect()
-    return [T_WIN, status] + _state_obs(env)
+    return ([T_WIN2, status, status2] if keep else [T_WIN, status]) + _state_obs(env)
 
 
 # ------------------------------------------------------------------ model side
@@ -587,6 +615,8 @@ def coq_case(case):
             ops.append(f"Read {int(op[1])}")
         elif op[0] == "kill":
             ops.append(f"Kill {L.z(op[1])}")
+        elif op[0] == "win2":
+            ops.append(f"WriteInsideKeep {L.lst([_act(a) for a in op[1]])}")
         else:
             ops.append(f"WriteInside {L.lst([_act(a) for a in op[1]])}")
     return f"{{| c_init := {init}; c_comps := {comps}; c_ops := {L.lst(ops)} |}}"
@@ -607,7 +637,7 @@ def nontrivial(case):
     for o in obs:
         if not o or o[0] < 0:
             continue
-        cnts = o[2:2 + n] if o[0] in (T_READ, T_WIN) else o[1:1 + n]
+        cnts = o[3:3 + n] if o[0] == T_WIN2 else o[2:2 + n] if o[0] in (T_READ, T_WIN) else o[1:1 + n]
         if last is not None:
             if cnts != last:
                 recomputed = True
